@@ -15,8 +15,11 @@ import (
 	"math"
 	"math/big"
 	"os"
+	"runtime"
 	"sort"
+	"strconv"
 	"strings"
+	"sync"
 
 	"github.com/blinklabs-io/gouroboros/cbor"
 	"github.com/blinklabs-io/gouroboros/ledger/common"
@@ -58,21 +61,24 @@ type snapIn struct {
 
 func poolKey(i int) common.PoolKeyHash {
 	var k common.PoolKeyHash
-	k[0] = byte(i + 1)
+	k[0], k[1] = byte(i+1), byte((i+1)>>8)
 	k[27] = 0xA5
 	return k
 }
 
-// delegator id = pool*256 + index + 1 ; index 255 = the non-delegating owner key
+const ownerOnly = 65000 // delegator index of the owner key that does not delegate
+
+// delegator id = pool*65536 + index + 1
 func delegKey(p, d int) common.AddrKeyHash {
 	var k common.AddrKeyHash
-	k[0] = byte(p + 1)
-	k[1] = byte(d + 1)
+	k[0], k[1] = byte(p+1), byte((p+1)>>8)
+	k[2], k[3] = byte(d+1), byte((d+1)>>8)
 	k[27] = 0x5A
 	return k
 }
-func poolID(k []byte) uint64  { return uint64(k[0]) - 1 }
-func delegID(k []byte) uint64 { return (uint64(k[0])-1)*256 + uint64(k[1]) }
+func poolID(k []byte) uint64  { return uint64(k[0]) + uint64(k[1])<<8 - 1 }
+func delegIdx(k []byte) int   { return int(k[2]) + int(k[3])<<8 - 1 }
+func delegID(k []byte) uint64 { return poolID(k)*65536 + uint64(delegIdx(k)) + 1 }
 
 func buildSnapshot(in *snapIn) (common.AdaPots, common.RewardSnapshot, common.RewardParameters) {
 	s := common.RewardSnapshot{
@@ -110,7 +116,7 @@ func buildSnapshot(in *snapIn) (common.AdaPots, common.RewardSnapshot, common.Re
 			}
 			for _, o := range p.Owners {
 				if o < 0 {
-					cert.PoolOwners = append(cert.PoolOwners, delegKey(i, 254))
+					cert.PoolOwners = append(cert.PoolOwners, delegKey(i, ownerOnly))
 				} else {
 					cert.PoolOwners = append(cert.PoolOwners, delegKey(i, o))
 				}
@@ -129,6 +135,20 @@ type ev struct {
 	name string
 	id   []byte
 	v    uint64
+	gid  uint64 // goroutine that emitted the record
+}
+
+// goid returns the id of the calling goroutine (harness-only: used to
+// attribute interleaved trace records of concurrent workers)
+func goid() uint64 {
+	var buf [64]byte
+	n := runtime.Stack(buf[:], false)
+	f := strings.Fields(string(buf[:n]))
+	if len(f) < 2 {
+		return 0
+	}
+	g, _ := strconv.ParseUint(f[1], 10, 64)
+	return g
 }
 
 type kv struct {
@@ -160,8 +180,15 @@ type observation struct {
 func runOnce(in *snapIn) (obs observation, res *common.RewardCalculationResult, snap common.RewardSnapshot) {
 	pots, snap, params := buildSnapshot(in)
 	var trace []ev
+	var tmu sync.Mutex
+	// the distribution may run on several goroutines: records are taken under
+	// a lock and later grouped per goroutine (within one goroutine a pool's
+	// "pool-dist", "op-raw" and "deleg-raw" records are sequential)
 	common.VerifRewardsTrace = func(name string, id []byte, v uint64) {
-		trace = append(trace, ev{name, append([]byte(nil), id...), v})
+		g := goid()
+		tmu.Lock()
+		trace = append(trace, ev{name, append([]byte(nil), id...), v, g})
+		tmu.Unlock()
 	}
 	res, err := common.CalculateRewards(pots, snap, params)
 	common.VerifRewardsTrace = nil
@@ -173,8 +200,9 @@ func runOnce(in *snapIn) (obs observation, res *common.RewardCalculationResult, 
 	obs.total, obs.potOut = res.TotalRewards, res.UpdatedPots.Rewards
 	byID := map[uint64]*obsPool{}
 	var order []uint64
-	var cur *obsPool
+	curOf := map[uint64]*obsPool{} // per goroutine: the pool being distributed
 	for _, e := range trace {
+		cur := curOf[e.gid]
 		switch e.name {
 		case "pool-raw":
 			obs.raws = append(obs.raws, kv{poolID(e.id), e.v})
@@ -188,13 +216,15 @@ func runOnce(in *snapIn) (obs observation, res *common.RewardCalculationResult, 
 				order = append(order, cur.ID)
 			}
 			cur.Total, cur.traced = e.v, true
+			curOf[e.gid] = cur
 		case "op-raw":
 			if cur != nil {
 				cur.OpRaw = e.v
 			}
 		case "deleg-raw":
-			if cur != nil {
-				cur.Delegs = append(cur.Delegs, kv{delegID(e.id), e.v})
+			// the key names its pool: attribute by key, not by position
+			if p := byID[poolID(e.id)]; p != nil {
+				p.Delegs = append(p.Delegs, kv{delegID(e.id), e.v})
 			}
 		}
 	}
@@ -295,7 +325,7 @@ func monitor(c *vh.Ctx, in *snapIn, o *observation, res *common.RewardCalculatio
 			if x.Cmp(t) > 0 {
 				c.Res.Violate("monitor", "reward-exceeds-pool-total", fmt.Sprintf("pool %d delegator %d reward %d exceeds the pool total %d", poolID(k[:]), delegID(dk[:]), v, pr.TotalRewards), in)
 			}
-			if !in.Pools[poolID(k[:])].Delegs[int(dk[1])-1].Registered {
+			if di := delegIdx(dk[:]); di >= len(in.Pools[poolID(k[:])].Delegs) || !in.Pools[poolID(k[:])].Delegs[di].Registered {
 				c.Res.Violate("monitor", "unregistered-key-rewarded", fmt.Sprintf("pool %d delegator %d is not registered but rewarded", poolID(k[:]), delegID(dk[:])), in)
 			}
 		}
@@ -324,36 +354,109 @@ func classOf(in *snapIn) string {
 	case in.Pot >= 1<<53:
 		pc = "pot>=2^53"
 	}
-	return fmt.Sprintf("pools=%d/%s", n, pc)
+	b := fmt.Sprint(n)
+	switch {
+	case n > 257:
+		b = "258+"
+	case n > 129:
+		b = "130..257"
+	case n > 70:
+		b = "71..129"
+	case n >= 32:
+		b = "32..70"
+	case n > 8:
+		b = "9..31"
+	}
+	return fmt.Sprintf("pools=%s/%s", b, pc)
 }
 
-func runCase(c *vh.Ctx, cf *vh.CaseFile, in snapIn, reps int) {
+// GOMAXPROCS values every snapshot is run under (0 = the process default):
+// the result must not depend on the available parallelism
+var procsAll = []int{1, 2, 3, 5, 6, 7, 12, 0}
+
+var defaultProcs = runtime.GOMAXPROCS(0)
+
+func setProcs(p int) int {
+	if p <= 0 {
+		p = defaultProcs
+	}
+	runtime.GOMAXPROCS(p)
+	return p
+}
+
+// invariant part of a result: independent of map iteration order on a correct
+// implementation (error flag, set of rewarded pools, sum of the pool totals)
+func invariantSig(o *observation, res *common.RewardCalculationResult) string {
+	if o.err || res == nil {
+		return "err"
+	}
+	ids := make([]int, 0, len(res.PoolRewards))
+	sum := new(big.Int)
+	for k, pr := range res.PoolRewards {
+		ids = append(ids, int(poolID(k[:])))
+		sum.Add(sum, new(big.Int).SetUint64(pr.TotalRewards))
+	}
+	sort.Ints(ids)
+	return fmt.Sprintf("pools=%v sum=%s total=%d pot=%d", ids, sum, res.TotalRewards, res.UpdatedPots.Rewards)
+}
+
+// runCase runs one snapshot `reps` times under each GOMAXPROCS value of procs.
+// At most coqMax distinct observations are sent to the Coq model (none when
+// the snapshot has more than coqPools pools: monitor only).
+func runCase(c *vh.Ctx, cf *vh.CaseFile, in snapIn, procs []int, reps, coqMax, coqPools int) {
 	c.Begin(in)
+	defer setProcs(0)
 	canon, _ := json.Marshal(in)
 	seen := map[string]bool{}
-	for r := 0; r < reps; r++ {
-		var o observation
-		var res *common.RewardCalculationResult
-		panicked, pv := vh.Recover(func() { o, res, _ = runOnce(&in) })
-		if panicked {
-			c.Res.Violate("monitor", "calculate-rewards-panic", fmt.Sprintf("CalculateRewards panicked: %v", pv), in)
-			return
+	sent := 0
+	firstInv, firstP := "", 0
+	for _, pp := range procs {
+		p := setProcs(pp)
+		for r := 0; r < reps; r++ {
+			var o observation
+			var res *common.RewardCalculationResult
+			panicked, pv := vh.Recover(func() { o, res, _ = runOnce(&in) })
+			if panicked {
+				c.Res.Violate("monitor", "calculate-rewards-panic", fmt.Sprintf("CalculateRewards panicked (GOMAXPROCS=%d): %v", p, pv), in)
+				return
+			}
+			inv := invariantSig(&o, res)
+			if firstInv == "" {
+				firstInv, firstP = inv, p
+			} else if inv != firstInv {
+				a, b := firstInv, inv
+				if len(a) > 300 {
+					a = a[:300] + "..."
+				}
+				if len(b) > 300 {
+					b = b[:300] + "..."
+				}
+				c.Res.Violate("monitor", "rewards-depend-on-gomaxprocs", fmt.Sprintf("rewarded pool set / sum of totals differ between GOMAXPROCS=%d (%s) and GOMAXPROCS=%d (%s)", firstP, a, p, b), in)
+			}
+			if seen[o.sig] {
+				continue
+			}
+			seen[o.sig] = true
+			n := len(o.pools)
+			cl := classOf(&in)
+			toCoq := sent < coqMax && n <= coqPools
+			if n > coqPools {
+				cl += "/monitor-only"
+			}
+			c.Res.Count(string(canon)+o.sig, n >= 2 && in.Pot > 0, cl)
+			if n >= 2 && n <= 8 {
+				c.Res.Sample(map[string]any{"class": classOf(&in), "pot": in.Pot, "pools": n, "gomaxprocs": p, "raw_amounts_in_iteration_order": o.raws})
+			}
+			note := fmt.Sprintf(" [GOMAXPROCS=%d]", p)
+			if len(o.raws) > 0 {
+				note += fmt.Sprintf(" [second-pass order ends with pool %d]", o.raws[len(o.raws)-1].ID)
+			}
+			monitor(c, &in, &o, res, note)
+			if toCoq {
+				cf.Add(coqCase(&in, &o), in)
+				sent++
+			}
 		}
-		if seen[o.sig] {
-			continue
-		}
-		seen[o.sig] = true
-		n := len(o.pools)
-		c.Res.Count(string(canon)+o.sig, n >= 2 && in.Pot > 0, classOf(&in))
-		if n >= 2 {
-			c.Res.Sample(map[string]any{"class": classOf(&in), "pot": in.Pot, "pools": n, "raw_amounts_in_iteration_order": o.raws})
-		}
-		note := ""
-		if len(o.raws) > 0 {
-			note = fmt.Sprintf(" [second-pass order ends with pool %d]", o.raws[len(o.raws)-1].ID)
-		}
-		monitor(c, &in, &o, res, note)
-		cf.Add(coqCase(&in, &o), in)
 	}
 }
 
@@ -398,26 +501,49 @@ func genPot(r *vh.Rng) uint64 {
 }
 
 func genSnap(r *vh.Rng) snapIn {
+	n := 1 + r.Intn(8)
+	if r.Chance(1, 3) {
+		n = 1 + r.Intn(3)
+	}
+	if r.Chance(1, 12) {
+		n = 9 + r.Intn(72) // beyond any small-batch / parallelism threshold
+	}
+	return genSnapN(r, n, false)
+}
+
+// genSnapN: a snapshot with n pools; sweep = every pool has parameters, the
+// pot and the stake are non-zero (so exactly n pools must be rewarded), a few
+// delegators per pool and now and then one pool with many
+func genSnapN(r *vh.Rng, n int, sweep bool) snapIn {
 	var in snapIn
 	in.Pot = genPot(r)
 	if r.Chance(1, 40) {
 		in.Pot = 0
 	}
-	in.Reserves, in.Treasury = r.U64()%maxAda, r.U64()%maxAda
-	n := 1 + r.Intn(8)
-	if r.Chance(1, 3) {
-		n = 1 + r.Intn(3)
+	if sweep && r.Chance(1, 2) {
+		in.Pot = 10_000_000_000_000 + r.U64()%30_000_000_000_000
 	}
+	in.Reserves, in.Treasury = r.U64()%maxAda, r.U64()%maxAda
 	in.TotalBlocks = uint32(r.Intn(3) * r.Intn(22000))
 	if r.Chance(1, 2) {
 		in.A0Num, in.A0Den = int64(r.Intn(10)), 10
 	}
 	zeroShares := r.Chance(1, 6) // all pools without blocks: the equal-share path
+	big := -1
+	if r.Chance(1, 4) {
+		big = r.Intn(n) // one pool with many delegators
+	}
 	var tot uint64
 	for i := 0; i < n; i++ {
 		var p poolIn
-		p.HasParams = !r.Chance(1, 12)
+		p.HasParams = sweep || !r.Chance(1, 12)
 		nd := r.Intn(6)
+		if n > 8 {
+			nd = r.Intn(3)
+		}
+		if i == big {
+			nd = 30 + r.Intn(40)
+		}
 		var sum uint64
 		for j := 0; j < nd; j++ {
 			d := delegIn{Stake: genStake(r) / uint64(1+r.Intn(4)), Registered: !r.Chance(1, 4)}
@@ -478,6 +604,14 @@ func genSnap(r *vh.Rng) snapIn {
 	if r.Chance(1, 40) {
 		in.TAS = 0
 	}
+	if sweep {
+		if in.TAS == 0 {
+			in.TAS = maxAda
+		}
+		if in.Pot == 0 {
+			in.Pot = 31_000_000_000_007
+		}
+	}
 	return in
 }
 
@@ -505,10 +639,14 @@ func corpus() []snapIn {
 }
 
 func run(c *vh.Ctx) error {
-	c.Res.Rule = "reward snapshots with 1..8 pools (some without parameters or without a delegator map), stakes 0 .. 4.5e16 (total ada supply) incl. 2^53 boundaries, margins 0, 1, k/d, above 1 and the zero Rat, costs 0 / 340 ada / above the pool total / uint64 boundaries, owner sets (delegating and non-delegating owners), unregistered delegators, block counts incl. none (equal-share path), pots: small, typical epoch pot, around 2^53, odd above 2^53, around 2^63, up to 2^64-1; every snapshot is run several times because the result depends on Go map iteration order; distinct by input + observed raw amounts and orders; non-trivial = at least 2 rewarded pools and a non-zero pot"
+	c.Res.Rule = "reward snapshots with 1..8 pools, sometimes 9..80 (some without parameters or without a delegator map), plus a pool-count sweep: every count 1..70 (thorough 1..200) and 127/128/129/255/256/257/1000 (thorough also 511..513, 1023..1025, 2048, 4097) with all pools rewarded, 0..2 delegators each and now and then one pool with 30..69 delegators, stakes 0 .. 4.5e16 (total ada supply) incl. 2^53 boundaries, margins 0, 1, k/d, above 1 and the zero Rat, costs 0 / 340 ada / above the pool total / uint64 boundaries, owner sets (delegating and non-delegating owners), unregistered delegators, block counts incl. none (equal-share path), pots: small, typical epoch pot, around 2^53, odd above 2^53, around 2^63, up to 2^64-1; every snapshot is run several times because the result depends on Go map iteration order, and under several GOMAXPROCS values (sweep: all of 1,2,3,5,6,7,12,default; random: two or three of them) - the rewarded pool set and the sum of totals must not depend on it; snapshots with more than 130 (thorough 260) pools are monitor-only; distinct by input + observed raw amounts and orders; non-trivial = at least 2 rewarded pools and a non-zero pot"
 	c.Res.Modelled = []string{"all float64 arithmetic of rewards.go (pool shares, normalisation, operator share, delegator shares) is an oracle: the uint64 conversions of the float results enter the model as data taken from the implementation through the verif trace hook; map iteration orders likewise"}
 	cf := c.NewCaseFile("c45", header)
 	cf.SetShardSize(c.Pick(60, 150))
+	// snapshots with many pools are heavy for vm_compute: own shards, run in parallel
+	bf := c.NewCaseFile("c45big", header)
+	bf.SetShardSize(c.Pick(6, 10))
+	coqPools := c.Pick(130, 260)
 	if c.Replay != "" {
 		b, err := os.ReadFile(c.Replay)
 		if err != nil {
@@ -520,18 +658,47 @@ func run(c *vh.Ctx) error {
 		if err := json.Unmarshal(b, &rp); err != nil {
 			return err
 		}
-		runCase(c, cf, rp.Replay, 64)
+		runCase(c, cf, rp.Replay, procsAll, 8, 4, coqPools)
 		cf.Flush()
 		return nil
 	}
 	for _, in := range corpus() {
-		runCase(c, cf, in, 64) // both iteration orders with probability 1 - 2^-63
+		// both iteration orders of two pools with probability 1 - 2^-63
+		runCase(c, cf, in, []int{0, 1}, 32, 6, coqPools)
 	}
-	n := c.Pick(300, 4000)
+	// pool-count sweep: every count 1..70 (thorough 1..200) and boundary counts,
+	// each under every GOMAXPROCS value; exactly n pools must be rewarded
+	var sizes []int
+	for n := 1; n <= c.Pick(70, 200); n++ {
+		sizes = append(sizes, n)
+	}
+	sizes = append(sizes, 127, 128, 129, 255, 256, 257, 1000)
+	if c.Thorough() {
+		sizes = append(sizes, 511, 512, 513, 1023, 1024, 1025, 2048, 4097)
+	}
+	for k, n := range sizes {
+		procs := append(append([]int(nil), procsAll[k%len(procsAll):]...), procsAll[:k%len(procsAll)]...)
+		f := cf
+		if n > 12 {
+			f = bf
+		}
+		runCase(c, f, genSnapN(c.Rng, n, true), procs, 1, 1, coqPools)
+	}
+	n := c.Pick(220, 3000)
 	for i := 0; i < n; i++ {
-		runCase(c, cf, genSnap(c.Rng), c.Pick(2, 3))
+		in := genSnap(c.Rng)
+		procs := []int{vh.PickOne(c.Rng, procsAll), vh.PickOne(c.Rng, procsAll)}
+		if c.Thorough() {
+			procs = append(procs, vh.PickOne(c.Rng, procsAll))
+		}
+		f := cf
+		if len(in.Pools) > 12 {
+			f = bf
+		}
+		runCase(c, f, in, procs, 1, 2, coqPools)
 	}
 	cf.Flush()
+	bf.Flush()
 	return nil
 }
 
